@@ -265,6 +265,7 @@ fn query_record<P: PT>(ctx: &Ctx, m: &PrefixMap<P, i32>, qj: &Value, q: &P) -> V
         let cover = Coll::<P>::cover(m, &q, 2);
         let ck: Vec<P> = m.cover_keys(&q).take(4096).cloned().collect();
         let cv: Vec<i32> = m.cover_values(&q).take(4096).copied().collect();
+        #[allow(unused_mut)]
         let mut rec = json!({
             "q": qj,
             "get": opt(m.get(&q).copied()),
@@ -275,13 +276,12 @@ fn query_record<P: PT>(ctx: &Ctx, m: &PrefixMap<P, i32>, qj: &Value, q: &P) -> V
             "cover": pvs(ctx, cover.clone().into_iter()),
             "children": pvs(ctx, Coll::<P>::children(m, &q).into_iter()),
         });
-        // the *_prefix / *_keys / *_values variants must agree with their full twins
-        if lpm_p != lpm.map(|x| x.0) || spm_p != spm.map(|x| x.0)
-            || ck != cover.iter().map(|x| x.0.clone()).collect::<Vec<_>>()
-            || cv != cover.iter().map(|x| x.1).collect::<Vec<_>>()
-        {
-            rec["lpm"] = json!(["VARIANTS-DIFFER"]);
-        }
+        // the *_prefix / *_keys / *_values variants are logged as data and judged by TLC as well
+        rec["lpmp"] = match &lpm_p { Some(p) => json!([ctx.enc(p)]), None => json!([]) };
+        rec["spmp"] = match &spm_p { Some(p) => json!([ctx.enc(p)]), None => json!([]) };
+        rec["ck"] = Value::Array(ck.iter().map(|p| ctx.enc(p)).collect());
+        rec["cv"] = json!(cv);
+        let _ = (&lpm, &spm);
         rec
     }
 }
